@@ -468,7 +468,7 @@ func runC04(ctx *core.Ctx, idx int) *core.Result {
 	if idx < 24 {
 		// an elision over elements that an earlier change of the same patch generated (chain shared with C01 and C02)
 		g := gen.NewG(ctx.Rand("c04chain", idx))
-		chain, plants, word := followUpChain(g, 6)
+		chain, plants, word := followUpChain(g, 6+idx%2)
 		var srcs, extra []string
 		for f := 0; f < 3; f++ {
 			srcs = append(srcs, g.File(gen.FileOpts{Plants: plants}))
